@@ -206,3 +206,20 @@ Theorem C20_rotate_repaired_witnesses_float :
   orb (orb (is_nan (vx v)) (is_nan (vy v))) (is_nan (vz v)) = false.
 Proof. split; [exact (proj1 rotate_new_witnesses)|exact (proj1 (proj2 rotate_new_witnesses))]. Qed.
 Print Assumptions C20_rotate_repaired_witnesses_float.
+
+(** ** ScintillationOffload: nothing requested (and nothing drawn) for a
+    non-positive mean yield; in the Gaussian regime (mean > 10) the count is the
+    clamped, rounded normal sample and a valid unsigned value *)
+Theorem C20_scint_offload_none : forall yield res edep s, yield * edep <= 0 ->
+  scint_offload (T:=R) yield res edep s = Some (0%Z, s).
+Proof. exact scint_offload_none. Qed.
+Print Assumptions C20_scint_offload_none.
+
+Theorem C20_scint_offload_gauss_count : forall yield res edep u1 u2 s, 10 < yield * edep ->
+  forall x st,
+  normal_step (T:=R) (yield * edep) (res * sqrt (yield * edep)) None (u1 :: u2 :: s) = Some ((x, st), s) ->
+  x + 1 / 2 < 4294967296 ->
+  exists k, scint_offload (T:=R) yield res edep (u1 :: u2 :: s) = Some (k, s)
+            /\ (0 <= k < 4294967296)%Z /\ k = Int_part (Rmax (x + 1 / 2) 0).
+Proof. exact scint_offload_gauss_count. Qed.
+Print Assumptions C20_scint_offload_gauss_count.
